@@ -41,7 +41,17 @@ def run(ctx):
             if name == 'mul':
                 pts = pts + probes.mul_sparse_probes(pty, 6 if ctx.tier == 'quick' else 24)     # dense x dense products in extreme rounding situations
             pjobs.append(dict(rule='GCR', label='%s::%s' % (pty.name, name), path=path, pty=pty, points=pts, spec=posit_binary_spec(pty, f)))
-    run_points_parallel(ctx, prog, pjobs)
+    # P8E0: every one of the 2^16 operand pairs of + - * / singly (enumeration of singleton cells): decides the four P8E0 operations for all inputs
+    p8pairs = [(a, b) for a in range(256) for b in range(256)]
+    n8 = 0
+    for name, f in OPS.items():
+        path = prog.inherent(P8.tykey, name)
+        if path:
+            pjobs.append(dict(rule='GCR', label='P8E0::%s' % name, path=path, pty=P8, points=p8pairs, spec=posit_binary_spec(P8, f)))
+            n8 += len(p8pairs)
+    ctx.count('p8_operand_pairs_decided_singly', n8)
+    ctx.rules.append('singleton cells: all 2^16 operand pairs of P8E0 + - * /; rounding-matrix and sparse-product probes for the three types')
+    run_points_parallel(ctx, prog, pjobs, chunk=2048)
     # R10 with one symbolic operand: a (+/-) b for a constant a = 2^s * 1.0 or 2^s * 1.1..1 and *every* b of a regime cell placed so that the
     # exact result is a routing of b's bits (no literal meets a one or a carry); then the rounding cases of the result.  Proves alignment,
     # sticky collection, rounding, carry-out and saturation of add_mags / sub_mags on those families, both operand orders, both signs.
@@ -84,6 +94,6 @@ def run(ctx):
     ctx.count('one_symbolic_operand_cells', st['cells'])
     ctx.count('one_symbolic_operand_cells_proved', st['proved'])
     ctx.require('C01 decided cells', tot, 300)
-    ctx.undecided['general_path'] = 'alignment, sticky collection, rounding and saturation on the general arithmetic path are not decided'
+    ctx.undecided['general_path'] = 'P16E1 / P32E2: products and quotients of two dense significands, sums whose exact value is not a routing of one operand, beyond the probed pairs (P8E0 is decided for every operand pair by enumeration)'
     return LEVEL, ('NaR/zero algebra and evaluation order of the guards of + - * / for the three fixed types, decided for all operand pairs of each '
                    'control-determinate cell by abstract interpretation of the MIR; exact rational oracle at witnesses.')
